@@ -22,6 +22,9 @@ BODIES = {
     "atexit_hang": "import atexit, time\natexit.register(time.sleep, 1000)",
     # the body does not read; the initiator floods its channel with unconsumed items before it goes away
     "flooded": "import time\ntime.sleep(1000)",
+    # two bodies at once (the first one owns the main thread): see EXTRA_BODIES
+    "sleep_and_sending": "import time\ntime.sleep(1000)",
+    "sleep_and_short": "import time\ntime.sleep(1000)",
 }
 
 
@@ -51,6 +54,11 @@ def main():
         body = BODIES[sc["env"]]
         if body is not None:
             keep.append(gw.remote_exec(body))
+            extra = {"sleep_and_sending": "while True: channel.send(b'x' * 1000000)",
+                     "sleep_and_short": "import time\ntime.sleep(2.5)"}.get(sc["env"])
+            if extra:
+                time.sleep(0.2)
+                keep.append(gw.remote_exec(extra))
             if sc["env"] == "flooded":
                 for k in range(6000):
                     keep[-1].send(k)
